@@ -27,6 +27,7 @@ MANIFEST = dict(
           "angle's acos argument lies in [-1,1] (Cauchy-Schwarz) so the result is in [0,pi]; zero(), the unit vectors, origin(), the axes and coordinate planes return fresh objects that are what their names say even after earlier results were mutated or moved. All are for every real input, no bound."),
     note=("Real arithmetic (A1): float rounding in length/normalized/angle is not modelled. Type preservation/promotion (int, Fraction, Decimal, float, user ring type) is a finite "
           "statement about type tags; it is checked natively for every tag combination with sampled values and every constructor form (three coordinates, one sequence, two Points - also Points whose coordinates were assigned one by one) (labelled bounded stand-in, not counted as proved)."),
+    technique='contract-based deductive verification of the Vector / Point operations as polynomial identities through the real code (z3) + labelled native enumeration of numeric type tags and constructor forms',
     design_ref="DESIGN.md section 9 (C18)",
 )
 EXPLANATION = "All component formulas are straight-line code: one path each, polynomial identities discharged by z3."
